@@ -421,7 +421,17 @@ def deFlat (x : Ext) (σ : Space) : Nat → Id → List (String × Json) → Exc
         if hasFlatten props then (deStruct x σ f props deny (.obj c), c)
         else (deStruct x σ f props false (.obj (c.filter (fun kv => props.any (fun p => p.wire == kv.1)))),
               c.filter (fun kv => !(props.any (fun p => p.wire == kv.1))))
-      | .map _ _ => (de x σ f t (.obj c), c)
+      | .map k v =>
+        -- the `.map` arm of `de`, at this fuel (so that `deFlat (f+1) t c = (de (f+1) t (.obj c), c)`: `deFlat_map_eq`)
+        ((match mapM' (fun (kv : String × Json) =>
+              match de x σ f k (.str kv.1), de x σ f v kv.2 with
+              | .ok (.str _), .ok b => .ok (kv.1, b)
+              | .ok (.variant _ _), .ok b => .ok (kv.1, b)
+              | .ok _, .ok _ => .error .unsupported
+              | .error e, _ => .error e
+              | _, .error e => .error e) c with
+          | .ok es => .ok (.map (es.foldl (fun acc e => insertKv e.1 e.2 acc) []))
+          | .error e => .error e), c)
       | .option t' =>
         (match σ.get t' with
          | some ⟨.option _, _, _⟩ => (.error .unsupported, c)
@@ -478,5 +488,11 @@ def dflt (x : Ext) (σ : Space) : Nat → Id → Except E Val
       | .newtype _ _ _ (some d) => (match de x σ f t d with | .error .reject => .error .unsupported | r => r)
       | _ => .error .unsupported
 end
+
+/-- a flattened map reads the buffered entries exactly as the map type reads the object made of them -/
+theorem deFlat_map_eq (x : Ext) (σ : Space) {t k v : Id} {ed : List String} {im : List Impl}
+    (hget : σ.get t = some ⟨.map k v, ed, im⟩) (f : Nat) (c : List (String × Json)) :
+    deFlat x σ (f + 1) t c = (de x σ (f + 1) t (.obj c), c) := by
+  simp only [deFlat, de, hget]
 
 end TypifyModel.Serde
